@@ -201,6 +201,21 @@ Spec == Init /\ [][Next]_vars
 View == <<order, vals>>
 
 (***************************************************************************)
+(* Observations (pure functions of the state): what the read-only API       *)
+(* answers.  i may be negative (Python indexing of the key list).           *)
+(***************************************************************************)
+ObsNorm(i, n)  == IF i < 0 THEN i + n ELSE i
+ObsValid(i, n) == ObsNorm(i, n) >= 0 /\ ObsNorm(i, n) < n
+ObsAt(s, i)       == IF ObsValid(i, Len(s.order)) THEN <<"key", s.order[ObsNorm(i, Len(s.order)) + 1]>> ELSE <<"IndexError">>
+ObsValueAt(s, i)  == IF ObsValid(i, Len(s.order)) THEN <<"val", s.vals[s.order[ObsNorm(i, Len(s.order)) + 1]]>> ELSE <<"IndexError">>
+ObsIndex(s, k)    == IF k \in Range(s.order) THEN <<"pos", Pos0(s.order, k)>> ELSE <<"ValueError">>
+ObsGetItem(s, k)  == IF k \in Range(s.order) THEN <<"val", s.vals[k]>> ELSE <<"KeyError">>
+ObsGet(s, k, d)   == IF k \in Range(s.order) THEN <<"val", s.vals[k]>> ELSE <<"val", d>>
+ObsContains(s, k) == k \in Range(s.order)
+ObsKeys(s)        == s.order
+ObsValues(s)      == [i \in 1..Len(s.order) |-> s.vals[s.order[i]]]
+
+(***************************************************************************)
 (* Properties (C16).                                                        *)
 (***************************************************************************)
 KeysUnique   == NoDup(order)
